@@ -516,7 +516,7 @@ def build(tier):
             'IEEE multiplication is monotone: 0 < a <= 1, b >= 0 => 0 <= fl(a*b) <= b (one axiom on the otherwise uninterpreted product; CBMC needs 93 s to bit-blast it)',
             'every training sample stored in sampler_t::m_samples is a valid sample of the dataset (0 <= s < errors_losses.cols == gradients.dim0); gboost::subsample_ratio in (0,1]; a non-empty training set',
             'existence of a positive weight is not re-established at the call site in sampler_t::sample (it depends on the loss values; see not_decided); non-negative weights ARE (proved there)',
-            'gboost::sampler_t::sample, loss-weighted mode: the loss value errors_losses(1, s) of every training sample is not negative (C06 proves value >= 0 for the losses over the reals; gboost::evaluate writes loss_t::value into row 1); Eigen lpNorm<2>() is never negative (it may be NaN / +inf: "no weight is negative" is stated as !(w < 0))',
+            'gboost::sampler_t::sample, loss-weighted mode: the loss value errors_losses(1, s) of every training sample is not negative (C06 proves value >= 0 for the losses over the reals -- EXCEPT its known finding: s-classnll with ONE output and target -1 returns value = output, which is negative for output < 0, so with that loss the assert weights.min() >= 0 of the library is violated in the loss-weighted mode; gboost::evaluate writes loss_t::value into row 1); Eigen lpNorm<2>() is never negative (it may be NaN / +inf: "no weight is negative" is stated as !(w < 0))',
             'sample_from_ball: doubles treated as reals; <random> contracts: std::normal_distribution(m, s)(rng) returns some real, std::discrete_distribution({w..})(rng) an index of [0, k), std::uniform_real_distribution(a, b)(rng) a real of [a, b]; every distribution is called with the modelled rng; std::pow uninterpreted with the instantiated fact 0 <= u <= 1 and e >= 0 => 0 <= pow(u, e) <= 1; sqrt uninterpreted with sqrt(u) >= 0 and sqrt(u)^2 == u for u >= 0 (specs/C06/vcgen.py Q1)',
             'sample_from_ball: Eigen operations of the closed list in specs/C06/eig.py plus lpNorm<2>() == sqrt(sum of squares), vector_t(size) = `size` indeterminate coefficients, x.tensor() = a mutable map of x; x.lpNorm<2>() on the right-hand side is evaluated before the assignment writes x (Eigen evaluates the scalar when the expression is built)',
             'sample_from_ball: stated facts about finite sums: S1 (a sum of non-negative terms is non-negative; specs/C06/vcgen.py), extensionality (equal summands at every coordinate give equal sums; the summand equality is proved), S2 homogeneity (phi_i == K * psi_i at every coordinate with K the same for every coordinate => sum phi == K * sum psi; the identity is proved, the coordinate-independence of K is checked syntactically: no generic-coordinate leaf, no constant drawn inside the coordinate loop)',
